@@ -55,6 +55,9 @@ func (h *harness) probes() {
 	}
 	// with the model variant fixed, run the probe histories for the record (violations + correspondence)
 	for _, hist := range h.probeHists {
+		if h.f.Replay != "" {
+			break // a replay reports only what the replayed input shows
+		}
 		h.runnerHistoryCase(hist, "probe")
 	}
 }
